@@ -60,6 +60,22 @@ mixed step(int i) {
     o = new("/obj/ecc");
     if (o) destruct(o);
     break;
+  case "load":     // the rest of the shape runs inside create() of an object being loaded
+    o = find_object("/obj/ecl" + i);
+    if (o) destruct(o);
+    "/reg"->set_hook("ecl", "pos", "" + (i + 1));
+    o = load_object("/obj/ecl" + i);
+    if (o) destruct(o);
+    break;
+  case "mod":      // the rest of the shape runs inside the move_or_destruct() hook that destruct() applies to a contained object
+    "/reg"->set_hook("ecm", "pos", "" + (i + 1));
+    o = new("/obj/ecb");
+    r = new("/obj/ecm");
+    r->mv_to(o);
+    destruct(o);
+    if (r) destruct(r);
+    r = 0;
+    break;
   case "move":
     "/reg"->set_hook("ecc", "shape", implode(shape, ","));
     "/reg"->set_hook("ecc", "pos", "-" + (i + 1));
@@ -82,9 +98,18 @@ void set_shape(string s) { shape = explode(s, ","); }
 
 // a fixed evaluation whose outcome must not depend on what failed before it
 void probe() {
-  mixed e1, e2;
-  int x;
+  mixed e1, e2, e3, e4;
+  object o;
+  int x, chain, dt;
+  // guards kept by load_object() and destruct() - tested before anything in the probe raises an error (errors reset them):
+  // an unrelated object can still be destructed, and a chain of loads exactly as deep as the limit still loads
+  e4 = catch(o = load_object("/obj/pd"));
+  if (o) e4 = catch(destruct(o));
+  dt = (!e4 && !find_object("/obj/pd")) ? 1 : 0;
+  e3 = catch(load_object("/obj/pl1"));
+  chain = find_object("/obj/pl8") ? 1 : 0;
+  for (x = 1; x <= 8; x++) { o = find_object("/obj/pl" + x); if (o) catch(destruct(o)); }
   e1 = catch(x = to_int((mixed)({ })));
   e2 = catch(throw("p"));
-  vlog("\"e\":\"Probe\",\"c1\":" + (stringp(e1) ? 1 : 0) + ",\"c2\":" + jq(e2) + ",\"sum\":" + (sizeof(filter_array(({ 1, 2, 3 }), (: $1 > 1 :))) + strlen("abc")) + "," + ctx());
+  vlog("\"e\":\"Probe\",\"c1\":" + (stringp(e1) ? 1 : 0) + ",\"c2\":" + jq(e2) + ",\"sum\":" + (sizeof(filter_array(({ 1, 2, 3 }), (: $1 > 1 :))) + strlen("abc")) + ",\"chain\":" + chain + ",\"dt\":" + dt + "," + ctx());
 }
